@@ -325,6 +325,8 @@ def check(run):
     _accept_wrap_by_callers(run, P)
     _lon_normalisation(run, P)
     _copy_preserves(run, P)
+    from .c01 import _vertices_exact
+    _vertices_exact(run, P)
 
 
 def _copy_preserves(run, P):
